@@ -241,7 +241,7 @@ func (x *world) newDraft(op, method, endpoint string) *draft {
 // num/den (consumable values are otherwise mostly stale) and falling back to anything in the pool.
 func (x *world) codeFor(c *vclient.Client) item {
 	if chance(x.r, 1, 2) {
-		if it, _ := x.mintCode(c, pick(x.r, "openid", "openid profile offline_access"), "code", true); it.Val != "" {
+		if it, _ := x.mintCode(c, pick(x.r, "openid", "openid profile offline_access"), "code", true, ""); it.Val != "" {
 			return it
 		}
 	}
@@ -312,15 +312,27 @@ func (x *world) tmplToken(grant string) *draft {
 		d.auth = x.authOf(c)
 	case "client_credentials":
 		c := x.client("svc", "svc", "all", "web")
-		d.params.add("scope", pick(r, scopesDict...))
+		if chance(r, 1, 3) {
+			// a scope the storage does not know: dropped silently, or refused by a strict storage
+			d.params.add("scope", pick(r, "openid nonsense", "nonsense", "api openid x-unknown"))
+		} else {
+			d.params.add("scope", pick(r, scopesDict...))
+		}
 		d.auth = x.authOf(c)
 		if chance(r, 1, 3) {
 			d.auth.kind = "post"
 		}
 	case string(oidc.GrantTypeBearer):
-		id := pick(r, "svc", "svc", "all", "jwt", "web")
-		d.params.add("assertion", x.assertion(id, pick(r, id, id, id, "svc"), x.issuerFor(x.host), pick(r, 0, 0, 0, 120)))
-		d.params.add("scope", pick(r, scopesDict...))
+		if chance(r, 2, 5) {
+			// fully valid assertion of a service user naming a scope the storage does not know (a strict storage
+			// answers invalid_scope from ValidateJWTProfileScopes)
+			d.params.add("assertion", x.assertion("svc", "svc", x.issuerFor(x.host), 0))
+			d.params.add("scope", pick(r, "openid nonsense", "openid nonsense", "nonsense", "openid api x-unknown"))
+		} else {
+			id := pick(r, "svc", "svc", "all", "jwt", "web")
+			d.params.add("assertion", x.assertion(id, pick(r, id, id, id, "svc"), x.issuerFor(x.host), pick(r, 0, 0, 0, 120)))
+			d.params.add("scope", pick(r, scopesDict...))
+		}
 	case string(oidc.GrantTypeTokenExchange):
 		c := x.client("web", "web2", "all", "all", "svc", "jwt", "post")
 		tok, typ := x.anyToken()
@@ -458,10 +470,15 @@ func (x *world) tmplCallback() *draft {
 	var id string
 	switch x.r.IntN(5) {
 	case 0: // pending
-		_, id = x.mintCode(x.client(codeClients...), "openid", pick(x.r, "code", "id_token", "id_token token"), false)
+		_, id = x.mintCode(x.client(codeClients...), "openid", pick(x.r, "code", "id_token", "id_token token"), false, "")
 	case 1: // done, fresh
+		// a finished request of every response type and mode (the implicit ones need a client registered for them)
 		c := x.client(codeClients...)
-		_, id = x.mintCode(c, "openid", "code", false)
+		rt := pick(x.r, "code", "id_token", "id_token token")
+		if rt != "code" {
+			c = x.client("web", "web2", "all")
+		}
+		_, id = x.mintCode(c, "openid profile", rt, false, pick(x.r, "", "form_post", "form_post", "fragment", "query"))
 		if id != "" {
 			x.w.Store.CompleteLogin(id, "user-1")
 		}
@@ -958,7 +975,7 @@ func (x *world) nextRequest() *Req {
 	d := x.genDraft()
 	var n int
 	switch v := x.r.IntN(100); {
-	case v < 12:
+	case v < 16:
 		n = 0
 	case v < 52:
 		n = 1
